@@ -13,7 +13,6 @@ import (
 // notApplicable: properties that static analysis cannot address here (DESIGN.md §6).
 var notApplicable = map[string]string{
 	"C17": "Equivalence of an optimised matcher with regexp semantics is a language-equivalence question over runtime patterns (DESIGN §6).",
-	"C27": "Equality of range and instant evaluation is numerical / iterator-state behaviour (DESIGN §6).",
 }
 
 func writeManifest() {
